@@ -138,6 +138,14 @@ func runC42(c *Ctx) {
 			}
 			nSeq++
 			okFn := fn == pws || fn == applyPending
+			// the drain step may be a helper of the sequencing functions (takeNextPending)
+			var helperOf *ssa.Function
+			if !okFn && ownedBy(fn, []string{ssaFuncKey(pws), ssaFuncKey(applyPending)}, 1) {
+				okFn = true
+				for _, ci := range callersInPkg(fn) {
+					helperOf = ci.Parent()
+				}
+			}
 			okInc := t == "(nextSequence<p0 + 1)"
 			held := heldAt(fn, st, ".mu", []string{"Lock"}, []string{"Unlock"})
 			c.Check(okFn && okInc && held, "sequence-advance", fk+":increment", st.Pos(), "advances by one under the stage mutex", fmt.Sprintf("nextSequence is written in %s as %s (mutex held: %v): the in-order cursor must advance by exactly one, under the mutex, only in the sequencing functions", fk, shortArg(t), held))
@@ -158,6 +166,26 @@ func runC42(c *Ctx) {
 					paired = it == "lookup(pending<p0,nextSequence<p0)#0"
 				}
 			}
+			if helperOf != nil {
+				// the helper hands back the buffered item of the consumed number, and the caller applies what it got
+				gives := false
+				for _, in2 := range fnInstrs(fn) {
+					if r, ok := in2.(*ssa.Return); ok && len(r.Results) > 0 && (reachesBlock(st.Block(), r.Block()) || st.Block() == r.Block()) {
+						if trace(returnedValue(r, 0)) == "lookup(pending<p0,nextSequence<p0)#0" {
+							gives = true
+						}
+					}
+				}
+				for _, ci := range allCalls(helperOf) {
+					if ci.Common().StaticCallee() != maybeApply {
+						continue
+					}
+					it := trace(ci.Common().Args[2])
+					if gives && strings.HasPrefix(it, fn.Name()+"(") && strings.HasSuffix(it, "#0") {
+						paired = true
+					}
+				}
+			}
 			c.Check(paired, "sequence-advance", fk+":applies-that-item", st.Pos(), "the item carrying the consumed sequence number is the one handed to maybeApply", "the sequence cursor advances without the item carrying that number being handed to maybeApply")
 		}
 	}
@@ -165,9 +193,14 @@ func runC42(c *Ctx) {
 	// applyPending deletes what it takes
 	{
 		del := false
-		for _, ci := range allCalls(applyPending) {
-			if b, ok := ci.Common().Value.(*ssa.Builtin); ok && b.Name() == "delete" && trace(ci.Common().Args[0]) == "pending<p0" && trace(ci.Common().Args[1]) == "nextSequence<p0" {
-				del = heldAt(applyPending, ci.(ssa.Instruction), ".mu", []string{"Lock"}, []string{"Unlock"})
+		for _, f := range closureFuncs(applyPending, 1) {
+			if f != applyPending && !ownedBy(f, []string{ssaFuncKey(applyPending)}, 1) {
+				continue
+			}
+			for _, ci := range allCalls(f) {
+				if b, ok := ci.Common().Value.(*ssa.Builtin); ok && b.Name() == "delete" && trace(ci.Common().Args[0]) == "pending<p0" && trace(ci.Common().Args[1]) == "nextSequence<p0" {
+					del = heldAt(f, ci.(ssa.Instruction), ".mu", []string{"Lock"}, []string{"Unlock"})
+				}
 			}
 		}
 		c.Check(del, "sequence-advance", ssaFuncKey(applyPending)+":removes-buffered", applyPending.Pos(), "a buffered item is removed when taken", "applyPending does not delete the buffered item it applies (under the mutex): it would be applied again")
@@ -293,7 +326,22 @@ func runC42(c *Ctx) {
 		sk := ssaFuncKey(stop)
 		var closes = map[string]ssa.CallInstruction{}
 		var order []string
-		for _, ci := range allCalls(stop) {
+		// Stop's steps in order, with calls to helper methods on the same receiver expanded in place
+		var steps []ssa.CallInstruction
+		var expand func(f *ssa.Function, d int)
+		expand = func(f *ssa.Function, d int) {
+			for _, ci := range allCalls(f) {
+				if _, isDefer := ci.(*ssa.Defer); !isDefer && d > 0 {
+					if h := samePkgHelper(f, ci.Common()); h != nil && h.Parent() == nil && h.Signature.Recv() != nil && len(ci.Common().Args) > 0 && trace(ci.Common().Args[0]) == "p0" && h.Name() != "Stop" && h.Name() != "Wait" {
+						expand(h, d-1)
+						continue
+					}
+				}
+				steps = append(steps, ci)
+			}
+		}
+		expand(stop, 1)
+		for _, ci := range steps {
 			cc := ci.Common()
 			if b, ok := cc.Value.(*ssa.Builtin); ok && b.Name() == "close" {
 				n := trace(cc.Args[0])
@@ -315,7 +363,7 @@ func runC42(c *Ctx) {
 		seq := strings.Join(order, " ")
 		idx := func(s string) int { return strings.Index(seq, s) }
 		if ci := closes["submitChan<p0"]; ci != nil {
-			held := heldAt(stop, ci.(ssa.Instruction), ".submitMu", []string{"Lock"}, []string{"Unlock"})
+			held := heldAt(ci.Parent(), ci.(ssa.Instruction), ".submitMu", []string{"Lock"}, []string{"Unlock"})
 			c.Check(held && idx("stopped") >= 0 && idx("stopped") < idx("close:submitChan<p0"), "send-close-discipline", sk+":close-submit", ci.Pos(), "submitChan is closed under submitMu.Lock after stopped was set", "Stop closes submitChan without submitMu.Lock or before setting stopped: a concurrent Submit can send on a closed channel")
 		} else {
 			c.Bad("send-close-discipline", sk+":close-submit", stop.Pos(), "Stop does not close submitChan: the decode workers never see end of input")
@@ -496,8 +544,13 @@ func runC43(c *Ctx) {
 			if t == "nil" || strings.HasPrefix(t, "nil:") {
 				continue
 			}
-			// append(append(make, [item]), applyPending(...)...)
-			okShape := strings.HasPrefix(t, "append(append(makeslice(") && strings.HasSuffix(t, "applyPending(p0,p1))")
+			// the elements are exactly the submitted item and what applyPending reports, however the slice is built
+			srcs := map[string]bool{}
+			sliceElemSources(r.Results[0], 0, srcs)
+			okShape := len(srcs) == 2 && srcs["elem:p2"] && srcs["slice:applyPending(p0,p1)"]
+			if !okShape {
+				t = fmt.Sprint(sortedKeys(srcs))
+			}
 			var mcall ssa.CallInstruction
 			for _, ci := range allCalls(pws) {
 				if cal := ci.Common().StaticCallee(); cal != nil && cal.Name() == "maybeApply" && trace(ci.Common().Args[2]) == "p2" {
@@ -515,7 +568,7 @@ func runC43(c *Ctx) {
 				// appended item is the one maybeApply was called with, after the call
 				for _, cj := range allCalls(ap) {
 					if cal := cj.Common().StaticCallee(); cal != nil && cal.Name() == "maybeApply" {
-						ok = cj.Block() == ci.Block() && precedes(cj.(ssa.Instruction), ci.(ssa.Instruction)) && strings.Contains(firstSliceElem(ap, ci.Common().Args[1], 0), "lookup(pending<p0,nextSequence<p0)#0")
+						ok = cj.Block() == ci.Block() && precedes(cj.(ssa.Instruction), ci.(ssa.Instruction)) && firstSliceElem(ap, ci.Common().Args[1], 0) == trace(cj.Common().Args[2])
 					}
 				}
 			}
@@ -564,6 +617,43 @@ func runC44(c *Ctx) {
 		c.Bad("sequence-consumed-on-handoff", sk, sub.Pos(), "Submit does not hand items over through a select on submitChan")
 		return
 	}
+	// the edge of Submit on which the slot has been acquired: the select's send edge, or the success edge of a
+	// helper whose only success return lies behind its own send on the slot
+	acqFrom, acqSucc := (*ssa.BasicBlock)(nil), 0
+	if slotAcq != nil {
+		acqFrom, acqSucc = slotAcq.from, 0
+	} else {
+		for _, ci := range allCalls(sub) {
+			h := samePkgHelper(sub, ci.Common())
+			if h == nil || h.Parent() != nil || ci.Value() == nil {
+				continue
+			}
+			for _, e := range selectEdges(h) {
+				e := e
+				if !isSendOn(e.st, "submitSlot<p0") {
+					continue
+				}
+				reach, _ := reachAvoiding(h, func(from *ssa.BasicBlock, succ int) bool { return from == e.from && succ == 0 })
+				only := true
+				for _, r := range successReturns(h) {
+					if reach[r.Block()] {
+						only = false
+					}
+				}
+				okF, _ := factsForValue(sub, ci.Value())
+				if !only || okF == "" {
+					continue
+				}
+				for _, ef := range edgeFacts(sub) {
+					if ef.Fact == okF {
+						slotAcq = &e
+						acqFrom, acqSucc = ef.From, ef.Succ
+					}
+				}
+			}
+		}
+	}
+	acqCut := func(from *ssa.BasicBlock, succ int) bool { return from == acqFrom && succ == acqSucc }
 	// (2) all mutations of sequenceCounter
 	nMut := 0
 	for _, fn := range c.pkgFuncs(rel) {
@@ -631,7 +721,7 @@ func runC44(c *Ctx) {
 		c.Check(slotAcq.sel.Blocking && nRecv == 2, "submit-serialised", sk+":acquire-wakeable", slotAcq.sel.Pos(), "waiting for the slot also watches the caller's and the pipeline's context", "waiting for the submit slot cannot be interrupted by both contexts")
 		// item construction (Load) happens after acquisition
 		if item != nil {
-			reach, _ := reachAvoiding(sub, func(from *ssa.BasicBlock, succ int) bool { return from == slotAcq.from && succ == 0 })
+			reach, _ := reachAvoiding(sub, acqCut)
 			c.Check(!reach[item.Block()], "submit-serialised", sk+":load-under-slot", item.Pos(), "the counter is read only while the slot is held", "the sequence counter is read without holding the submit slot")
 		}
 		// release: deferred closure receiving from the slot, registered after acquisition
@@ -641,11 +731,17 @@ func runC44(c *Ctx) {
 			if !ok {
 				continue
 			}
+			// a deferred func literal, or a deferred helper method, that receives from the slot
+			var cl *ssa.Function
 			if mc, ok := d.Call.Value.(*ssa.MakeClosure); ok {
-				cl := mc.Fn.(*ssa.Function)
+				cl = mc.Fn.(*ssa.Function)
+			} else if h := samePkgHelper(sub, &d.Call); h != nil {
+				cl = h
+			}
+			if cl != nil {
 				for _, cin := range fnInstrs(cl) {
 					if u, ok := cin.(*ssa.UnOp); ok && u.Op.String() == "<-" && strings.Contains(trace(u.X), "submitSlot") {
-						reach, _ := reachAvoiding(sub, func(from *ssa.BasicBlock, succ int) bool { return from == slotAcq.from && succ == 0 })
+						reach, _ := reachAvoiding(sub, acqCut)
 						rel = !reach[d.Block()]
 					}
 				}
